@@ -207,7 +207,7 @@ def parseDev (s : Bytes) : (Nat × Nat × Nat) × Bool :=
     else match splitOn 58 rest with
       | [a, b] => match parseUint10 32 a with
         | none => ((t, 0, 0), true)
-        | some mj => match parseUint10 8 b with
+        | some mj => match parseUint10 20 b with
           | none => ((t, mj, 0), true)
           | some mn => ((t, mj, mn), false)
       | _ => ((t, 0, 0), true)
